@@ -227,10 +227,27 @@ def run_case(ctx, kind_, idx):
                         y = y[:len(a)] if len(y) >= len(a) else np.resize(y, len(a))
                     else:
                         x = np.arange(len(a), dtype=float)
+                ulp_case = (not int_case) and rng.integers(0, 12) == 0
+                if ulp_case:
+                    # a series whose whole span is a few units in the last place (a counter at 2**52 ticking by one, two
+                    # time stamps one ulp apart): distinct end points, however close, still map to the ends of the range
+                    base = float(rng.choice([2.0 ** 52, 1.7e9, 1.0, -3.0, 2.0 ** 52 + 7.0, 1e-9]))
+                    k_ = np.unique(np.concatenate([[0], rng.integers(1, 4, int(rng.integers(1, 4)))]))
+                    vals = [base]
+                    for _s in range(int(k_[-1])):
+                        vals.append(float(np.nextafter(vals[-1], np.inf)))
+                    a = np.array([vals[int(v)] for v in k_])
+                    if target == "y":
+                        a = rng.permutation(a)
+                        x = np.arange(len(a), dtype=float)
+                    else:
+                        y = np.resize(y, len(a))
+                    info["span_in_ulps"] = int(k_[-1])
+                    info["base"] = base
                 info.update({"min_val": lo, "max_val": hi, "target": target})
                 if via_weaver:
                     wv = Weaver(x.copy() if target == "y" else a.copy(), a.copy() if target == "y" else y.copy())
-                    if rng.integers(0, 2):
+                    if rng.integers(0, 2) and not ulp_case:
                         # a non-zero (possibly negative) scale first: normalise must still be the INCREASING affine map
                         c = float(rng.choice([-2.0, -0.5, 3.0, -1.0]))
                         getattr(wv, "scale_" + target)(c)
